@@ -181,6 +181,7 @@ FastRational divexact(FastRational const & n, FastRational const & d) {
         word den = d.num;
         word quo;
         if (den != 0){
+            if (num == INT_MIN && den == -1) { return FastRational(static_cast<uint32_t>(1u << 31)); } // does not fit a word
             quo = num / den;
             return quo;
         }
